@@ -83,10 +83,22 @@ MateGen(p) ==
                            ab(x) == IF x < 0 THEN -x ELSE x IN
                        IF ab(df) > ab(dr) THEN ab(df) ELSE ab(dr)
         near(bk) == IF IOEnv.VERIF_NEAR = "1" THEN { k \in Sq : KDist(k, bk) = 2 } ELSE Sq
-    IN \E bk \in bks : \E k \in { k \in near(bk) : InSlice(bk * 64 + k) }, ps \in { q \in [1..n -> Sq] : n = 1 \/ Slices = 1 \/ q[1] % 4 = Slice % 4 }, sh \in shield :
-          p = Mk0(PlaceAll(PlaceAll(EmptyBoard, sh), << <<"K", k>>, <<"k", bk>> >> \o [i \in 1..n |-> <<MatePieces[i], ps[i]>>]), "w", {})
+        \* half-move clock of the root (99: the mating move is played on the brink of the clock draw)
+        hm0 == atoi(IOEnv.VERIF_HM)
+        \* optionally one extra defending piece next to its king (mates by capture) and the
+        \* attacking pieces within distance 3 of the defending king (VERIF_EXTRA = piece letter)
+        extra == IOEnv.VERIF_EXTRA
+        xs(bk) == IF extra = "" THEN {-1} ELSE { x \in Sq : KDist(x, bk) \in {1, 2} /\ (Slices = 1 \/ n = 1 \/ x % 4 = Slice % 4) }
+        psq(bk) == IF extra = "" THEN Sq ELSE { x \in Sq : KDist(x, bk) <= 3 }
+        withx(seq, x) == IF x = -1 THEN seq ELSE seq \o << <<extra, x>> >>
+    IN \E bk \in bks : \E k \in { k \in near(bk) : InSlice(bk * 64 + k) }, x \in xs(bk),
+          ps \in { q \in [1..n -> psq(bk)] : n = 1 \/ Slices = 1 \/ extra # "" \/ q[1] % 4 = Slice % 4 }, sh \in shield :
+          p = [ Mk0(PlaceAll(PlaceAll(EmptyBoard, sh), withx(<< <<"K", k>>, <<"k", bk>> >> \o [i \in 1..n |-> <<MatePieces[i], ps[i]>>], x)), "w", {})
+                EXCEPT !.hm = hm0 ]
 MateOK(p) == ValidPosition(p)
              /\ Cardinality({ s \in Sq : p.b[s] \in WhiteP }) = 1 + Len(MatePieces)
+             /\ Cardinality({ s \in Sq : p.b[s] # "." }) >= 2 + Len(MatePieces) + (IF IOEnv.VERIF_EXTRA = "" THEN 0 ELSE 1)
+             /\ \A z \in Sq : p.b[z] = "p" => RankOf(z) \in 1..6
              /\ Cardinality({ s \in Sq : p.b[s] = "k" }) = 1 /\ Cardinality({ s \in Sq : p.b[s] = "K" }) = 1
 
 Gen(p) == CASE Family = "ep" -> EpGen(p) /\ EpRootOK(p)
